@@ -42,6 +42,11 @@ def idx(base, i):
         items = base[1]
         if -len(items) <= k < len(items):
             return items[k]
+    # element `k` of an unfiltered comprehension over range(n), k a loop variable (a position, hence non-negative): the element
+    # expression at k (`centres[row]` for `centres = [f(i) for i in range(n)]`)
+    if base[0] == "map" and len(base) == 5 and base[4] == TRUE and base[3][0] == "call" and base[3][1] == "range" and len(base[3][2]) == 1 \
+            and not base[3][3] and i[0] == "bv":
+        return substitute(base[1], {base[2]: i})
     if base[0] == "phi":
         a, b = idx(base[2], i), idx(base[3], i)
         if not (a[0] == "idx" and a[1] == base[2] and b[0] == "idx" and b[1] == base[3]):
@@ -395,10 +400,11 @@ def cmp(op, a, b):
             return FALSE
         x, y = sorted([a, b], key=_key)
         return ("cmp", "ne", x, y)
-    if op == "In":
-        return ("in", a, b)
-    if op == "NotIn":
-        return ("not", ("in", a, b))
+    if op in ("In", "NotIn"):
+        # membership does not depend on the kind of collection the elements were poured into
+        while b[0] == "call" and b[1] in ("set", "list", "tuple", "frozenset") and len(b[2]) == 1 and not b[3]:
+            b = b[2][0]
+        return ("in", a, b) if op == "In" else ("not", ("in", a, b))
     return ("cmp", op, a, b)
 
 
